@@ -28,6 +28,17 @@ func init() {
 		defer env.Close()
 		return RunRating(env, a[0], a[1], a[2])
 	}
+	Modes["http"] = func(a []string) error {
+		if len(a) != 3 {
+			return fmt.Errorf("http <prefix> <cases.json> <out.ndjson>")
+		}
+		env, err := StartEnv(EnvOpts{})
+		if err != nil {
+			return err
+		}
+		defer env.Close()
+		return RunHTTP(env, a[0], a[1], a[2])
+	}
 	Modes["abmf"] = func(a []string) error {
 		if len(a) != 3 {
 			return fmt.Errorf("abmf <prefix> <behaviours.json> <out.ndjson>")
